@@ -427,3 +427,114 @@ Proof. unfold get_thread. now rewrite upd_vis_threads. Qed.
 Lemma get_thread_write_status n s0 s th : get_thread (write_status n s0 s) th = get_thread s th.
 Proof. unfold write_status. apply get_thread_upd_vis. Qed.
 #[export] Hint Rewrite get_thread_upd_inst get_thread_upd_vis get_thread_write_status : sup.
+
+(* ---- which events touch the shutdown bookkeeping of the observer ------------------------------------------- *)
+Ltac obs_cases o th :=
+  unfold obs_pre; cbn [fst snd];
+  try (destruct (ev_inst o th _) eqn:Ev);
+  try match goal with |- context[match ?b with true => _ | false => _ end] => destruct b end;
+  try match goal with |- context[match ?b with true => _ | false => _ end] => destruct b end;
+  cbn; autorewrite with obsf; cbn.
+
+Lemma obs_pre_sd_cur cs o th e :
+  match e with EShutdownOrder _ | EShutdownEnd => False | _ => True end ->
+  o_sd_cur (obs_pre cs o (th, e)) = o_sd_cur o.
+Proof.
+  intros Hne. destruct e; try contradiction; obs_cases o th; try reflexivity.
+  all: repeat match goal with |- context[if ?b then _ else _] => destruct b end; cbn; autorewrite with obsf; reflexivity.
+Qed.
+Lemma obs_pre_sd_done cs o th e :
+  match e with EShutdownEnd => False | _ => True end ->
+  o_sd_done (obs_pre cs o (th, e)) = o_sd_done o.
+Proof.
+  intros Hne. destruct e; try contradiction; obs_cases o th; try reflexivity.
+  all: repeat match goal with |- context[if ?b then _ else _] => destruct b end; cbn; autorewrite with obsf; try reflexivity.
+  fold_proj o_sd_done. reflexivity.
+Qed.
+Lemma obs_pre_after cs o th e :
+  match e with EShutdownEnd | ENewInst _ _ => False | _ => True end ->
+  o_after_sd_spawn (obs_pre cs o (th, e)) = o_after_sd_spawn o.
+Proof.
+  intros Hne. destruct e; try contradiction; obs_cases o th; try reflexivity.
+  all: repeat match goal with |- context[if ?b then _ else _] => destruct b end; cbn; autorewrite with obsf; try reflexivity.
+  fold_proj o_after_sd_spawn. reflexivity.
+Qed.
+
+(* ---- generic per-instance observer relation ------------------------------------------------------------------ *)
+Section ObsRel.
+Context (Rl : oinst -> oinst -> Prop) (Rrefl : forall x, Rl x x) (Rtrans : forall x y z, Rl x y -> Rl y z -> Rl x z).
+Definition obs_rel (o o' : obs) : Prop :=
+  forall j, match get j (oi o) with
+            | Some x => exists x', get j (oi o') = Some x' /\ Rl x x'
+            | None => get j (oi o') = None end.
+Lemma obs_rel_refl o : obs_rel o o.
+Proof. intros j. destruct (get j (oi o)); eauto. Qed.
+Lemma obs_rel_trans o1 o2 o3 : obs_rel o1 o2 -> obs_rel o2 o3 -> obs_rel o1 o3.
+Proof.
+  intros B1 B2 j. specialize (B1 j). specialize (B2 j). destruct (get j (oi o1)) as [x|].
+  - destruct B1 as (x2 & E2 & L2). rewrite E2 in B2. destruct B2 as (x3 & E3 & L3). exists x3. eauto.
+  - now rewrite B1 in B2.
+Qed.
+Lemma obs_rel_eq o o' : oi o' = oi o -> obs_rel o o'.
+Proof. intros B j. rewrite B. destruct (get j (oi o)); eauto. Qed.
+Lemma obs_rel_oi_upd i f o : (forall x, Rl x (f x)) -> obs_rel o (oi_upd i f o).
+Proof.
+  intros Hf j. rewrite oi_upd_get. destruct (N.eqb i j); destruct (get j (oi o)) as [x|]; cbn; eauto.
+Qed.
+Lemma obs_rel_on_upd n f o : obs_rel o (on_upd n f o).
+Proof. apply obs_rel_eq, on_upd_oi. Qed.
+Lemma obs_rel_fold_oi_upd (f : oinst -> oinst) l : (forall x, Rl x (f x)) ->
+  forall o, obs_rel o (fold_left (fun o i => oi_upd i f o) l o).
+Proof.
+  intros Hf. induction l as [|a l IH]; intros o; cbn; [apply obs_rel_refl|].
+  eapply obs_rel_trans; [apply (obs_rel_oi_upd a f o Hf)|apply IH].
+Qed.
+Lemma obs_rel_bwd o o' j x' : obs_rel o o' -> get j (oi o') = Some x' -> exists x, get j (oi o) = Some x /\ Rl x x'.
+Proof.
+  intros C H. specialize (C j). destruct (get j (oi o)) as [x|]; [|congruence].
+  destruct C as (x2 & E & L). exists x. split; [reflexivity|]. assert (x2 = x') by congruence. now subst.
+Qed.
+End ObsRel.
+
+Definition osr_le (x x' : oinst) : Prop := o_stopreq x = true -> o_stopreq x' = true.
+Lemma osr_le_refl x : osr_le x x. Proof. intros H; exact H. Qed.
+Lemma osr_le_trans x y z : osr_le x y -> osr_le y z -> osr_le x z. Proof. unfold osr_le; auto. Qed.
+
+Ltac obs_rel_close R Hrefl Htrans :=
+  repeat first
+  [ apply (obs_rel_refl R Hrefl)
+  | match goal with
+    | |- obs_rel _ ?o (oi_upd ?i ?f ?X) =>
+        apply (obs_rel_trans R Htrans o X); [|apply obs_rel_oi_upd; [exact Hrefl|]]
+    | |- obs_rel _ ?o (on_upd ?n ?f ?X) =>
+        apply (obs_rel_trans R Htrans o X); [|apply obs_rel_on_upd; exact Hrefl]
+    | |- obs_rel _ ?o (fold_left (fun o i => oi_upd i ?f o) ?l ?X) =>
+        apply (obs_rel_trans R Htrans o X); [|apply obs_rel_fold_oi_upd; [exact Hrefl|exact Htrans|]]
+    | |- obs_rel _ ?o (RecordSet.set _ _ ?X) =>
+        apply (obs_rel_trans R Htrans o X); [|apply obs_rel_eq; [exact Hrefl|reflexivity]]
+    end ].
+
+Lemma obs_pre_stopreq cs o th e :
+  match e with ENewInst _ _ => False | _ => True end -> obs_rel osr_le o (obs_pre cs o (th, e)).
+Proof.
+  intros Hne. unfold obs_pre.
+  destruct e; try contradiction; cbn [fst snd];
+  try (destruct (ev_inst o th _) eqn:Ev);
+  try match goal with |- context[match ?b with true => _ | false => _ end] => destruct b end;
+  try match goal with |- context[match ?b with true => _ | false => _ end] => destruct b end;
+  unfold note_late_commit;
+  repeat match goal with |- context[if ?b then _ else _] => destruct b end;
+  try apply (obs_rel_refl osr_le osr_le_refl); obs_rel_close osr_le osr_le_refl osr_le_trans.
+  all: intros x; unfold osr_le; cbn; auto.
+  1,2: destruct (opt_eqb _ _ _); cbn; auto.
+  intros ->. reflexivity.
+Qed.
+
+Lemma obs_pre_stopreq_get cs o th e i :
+  match e with ENewInst _ _ => False | _ => True end ->
+  o_stopreq (oi_get o i) = true -> o_stopreq (oi_get (obs_pre cs o (th, e)) i) = true.
+Proof.
+  intros Hne. pose proof (obs_pre_stopreq cs o th e Hne i) as H. unfold oi_get.
+  destruct (get i (oi o)) as [x|]; [|cbn; discriminate]. destruct H as (x' & -> & L). exact L.
+Qed.
+
